@@ -23,6 +23,11 @@ def jobs(mod, tier, seed, quick=(1, 1500, 200, 250, 10), thorough=(2, 30000, 600
     for i in range(len(mod.FIXED)):
         js.append({"kind": "systematic", "index": i, "bound": bound, "max_runs": max_runs})
         js.append({"kind": "fixed_random", "index": i, "n": n_fixed, "seed": derive_seed(seed, mod.PID, "f", i)})
+        if mod.FIXED[i].get("stall_runs"):
+            # scenarios built for a "stale decision after the lock was released" window: long stalls at synchronisation points
+            n = mod.FIXED[i]["stall_runs"] * (1 if tier == "quick" else 12)
+            for sh in range(2):
+                js.append({"kind": "fixed_stall", "index": i, "n": n // 2, "seed": derive_seed(seed, mod.PID, "s", i, sh)})
     for sh in range(n_hyp_jobs):
         js.append({"kind": "hyp", "n": n_hyp, "seed": derive_seed(seed, mod.PID, "h", sh)})
     return js
@@ -30,8 +35,20 @@ def jobs(mod, tier, seed, quick=(1, 1500, 200, 250, 10), thorough=(2, 30000, 600
 
 def run_job(mod, job, col):
     k = job["kind"]
-    if k == "fixed_random":
-        base = mod.FIXED[job["index"]]
+    if k == "fixed_stall":
+        import random
+        rnd = random.Random(job["seed"])
+        base = {kk: v for kk, v in mod.FIXED[job["index"]].items() if kk != "stall_runs"}
+        for _ in range(job["n"]):
+            spec = {"kind": "stall", "seed": rnd.randrange(10 ** 9), "stalls": rnd.choice([1, 1, 2]), "est_hot": rnd.choice([20, 30, 40, 60]),
+                    "max_dur": rnd.choice([60, 200, 400])}
+            case = dict(base, schedule=spec)
+            fs, nt, labels, trace, _s = mod.run_case_full(case)
+            if fs and trace is not None:
+                case = dict(case, schedule=S.replay_spec(trace))
+            col.record(case, fs, nontrivial=nt, labels=set(labels) | {"fixed-scenario", "stall-schedule"})
+    elif k == "fixed_random":
+        base = {kk: v for kk, v in mod.FIXED[job["index"]].items() if kk != "stall_runs"}
 
         cnt = [0]
 
@@ -59,7 +76,7 @@ def run_job(mod, job, col):
 
         hyp_run(mod.case_strategy(), one, job["n"], job["seed"])
     elif k == "systematic":
-        base = mod.FIXED[job["index"]]
+        base = {kk: v for kk, v in mod.FIXED[job["index"]].items() if kk != "stall_runs"}
 
         def runner(src):
             fs, nt, labels, trace, sched = mod.run_case_full(base, source=src, record=True)
